@@ -247,6 +247,13 @@ fn main() {
         let o = zv::run_bin(args, stdin.as_deref(), &[], None);
         let mut errs = zv::conforms(&r, &o).err();
         if o.status == 0 && o.stdout_str().matches('\n').count() != 1 { errs = Some(format!("stdout is not exactly one line: {:?}", o.stdout_str())); }
+        // the one-line clause holds whatever the log level: -v and RUST_LOG must leave stdout byte-identical
+        if errs.is_none() && o.status == 0 {
+            let mut va = vec!["-v".to_string()]; va.extend(args.iter().cloned());
+            let ov = zv::run_bin(&va, stdin.as_deref(), &[], None);
+            let oe = zv::run_bin(args, stdin.as_deref(), &[("RUST_LOG", "trace")], None);
+            if ov.stdout != o.stdout || oe.stdout != o.stdout { errs = Some(format!("stdout changes with the log level: plain {:?}, -v {:?}, RUST_LOG=trace {:?}", o.stdout_str(), truncate(&ov.stdout_str(), 120), truncate(&oe.stdout_str(), 120))); }
+        }
         errs.map(|e| (format!("{args:?}"), e))
     }).collect();
     let mut s5 = Stats::default();
